@@ -47,6 +47,7 @@ type FuncContract struct {
 	Ensures  []Clause
 	Loops    map[int][]Clause
 	Ats      []AtClause
+	Witness  []LetDef // named entry-state terms whose model values feed the counterexample replay
 	Locals   []QVar   // declared source-level locals (name, type): enables rename-tolerant resolution
 	Sets     []LetDef // ghost updates performed at function exit: sets g = expr
 	Lets     []LetDef
@@ -118,7 +119,7 @@ func NewSpecs() *Specs {
 	return &Specs{Funcs: map[string]*FuncContract{}, Spec: map[string]*SpecFunc{}, Axioms: map[string]*Axiom{}, Ghost: map[string]*GhostVar{}, Consts: map[string]string{}}
 }
 
-var kwRe = regexp.MustCompile(`^(func|iface|spec|macro|axiom|lemma|ghost|effectfree|property|requires|ensures|loop|let|trusted|pure|inline|noinline|safe|uses|modifies|noverify|at|sets|local|reveals|opaque)\b`)
+var kwRe = regexp.MustCompile(`^(func|iface|spec|macro|axiom|lemma|ghost|effectfree|property|requires|ensures|loop|let|trusted|pure|inline|noinline|safe|uses|modifies|noverify|at|sets|local|reveals|opaque|witness)\b`)
 
 // LoadFile parses one contract file. pkgPath is the import path used for
 // unqualified function names ("" for .spec files, which use full paths).
@@ -265,6 +266,19 @@ func (s *Specs) LoadFile(path, pkgPath string) error {
 				c.Label = "a" + strconv.Itoa(len(cur.Ats)+1)
 			}
 			cur.Ats = append(cur.Ats, AtClause{Callee: fs[0], C: c})
+		case "witness":
+			if cur == nil {
+				return fail(l, "witness outside func block")
+			}
+			i := strings.Index(rest, ":")
+			if i < 0 {
+				return fail(l, "witness needs 'name: expr'")
+			}
+			e, err := ParseExpr(strings.TrimSpace(rest[i+1:]))
+			if err != nil {
+				return fail(l, "%v", err)
+			}
+			cur.Witness = append(cur.Witness, LetDef{strings.TrimSpace(rest[:i]), e})
 		case "local":
 			if cur == nil {
 				return fail(l, "local outside func block")
